@@ -1205,6 +1205,7 @@ func Run(prefix []int, sigs []uint32, opt Options, body func()) *Exec {
 	}()
 	tick := time.NewTicker(200 * time.Millisecond)
 	defer tick.Stop()
+	lastTick, lastSeen, stalled := time.Now().UnixNano(), e.lastProg.Load(), int64(0)
 	for {
 		select {
 		case <-done:
@@ -1214,7 +1215,19 @@ func Run(prefix []int, sigs []uint32, opt Options, body func()) *Exec {
 			}
 			return e
 		case <-tick.C:
-			if time.Now().UnixNano()-e.lastProg.Load() > int64(20*time.Second) {
+			// the stall is accumulated from ticks that arrived on time only: a tick that comes late means
+			// the whole process (or machine: snapshot, suspend, swap storm) stood still, which says nothing
+			// about the execution
+			now := time.Now().UnixNano()
+			gap := now - lastTick
+			lastTick = now
+			switch prog := e.lastProg.Load(); {
+			case prog != lastSeen:
+				lastSeen, stalled = prog, 0
+			case gap < int64(600*time.Millisecond):
+				stalled += gap
+			}
+			if stalled > int64(20*time.Second) {
 				e.Abort, e.AbortMsg = "HANG", "no scheduling point reached for 20 s of wall-clock time (un-instrumented blocking operation?)"
 				return e
 			}
